@@ -89,6 +89,89 @@ func VerifC12Writers(content string, c1, c2 int, k0, k1, k2 int, single bool) in
 	return 0
 }
 
+// verifChunkReader hands out its data in the given chunk sizes; with eofWithData the last chunk comes together
+// with io.EOF, which the io.Reader contract allows (network bodies and decompressors do it).
+type verifChunkReader struct {
+	data        string
+	sizes       []int
+	eofWithData bool
+}
+
+func (r *verifChunkReader) Read(p []byte) (int, error) {
+	for len(r.sizes) > 0 && r.sizes[0] == 0 {
+		r.sizes = r.sizes[1:]
+	}
+	if len(r.data) == 0 {
+		return 0, io.EOF
+	}
+	n := len(r.data)
+	if len(r.sizes) > 0 && r.sizes[0] < n {
+		n = r.sizes[0]
+	}
+	if n > len(p) {
+		n = len(p)
+	}
+	copy(p, r.data[:n])
+	r.data = r.data[n:]
+	if len(r.sizes) > 0 {
+		r.sizes[0] -= n
+	}
+	if len(r.data) == 0 && r.eofWithData {
+		return n, io.EOF
+	}
+	return n, nil
+}
+
+// VerifC12Source: the hashing readers over a source that delivers the stream in chunks of c1 / c2-c1 / rest
+// bytes, the last one possibly together with io.EOF: every byte is passed on, counted and hashed.
+func VerifC12Source(content string, c1, c2 int, k0, k1 int, single, eofWithData bool) int {
+	names := []string{}
+	for _, k := range []int{k0, k1} {
+		if k >= 0 {
+			names = append(names, algName(k))
+		}
+	}
+	src := &verifChunkReader{data: content, sizes: []int{c1, c2 - c1, len(content) - c2}, eofWithData: eofWithData}
+	var r io.Reader
+	var hs []*Hasher
+	var err error
+	if single {
+		var h *Hasher
+		r, h, err = NewHasherReader(names[0], src)
+		hs = []*Hasher{h}
+		names = names[:1]
+	} else {
+		r, hs, err = NewHasherReaders(names, src)
+	}
+	if err != nil {
+		return 1
+	}
+	got := ""
+	buf := make([]byte, len(content)+1)
+	for i := 0; i < len(content)+3; i++ {
+		n, err := r.Read(buf)
+		got += string(buf[:n])
+		if err == io.EOF {
+			break
+		}
+		if err != nil {
+			return 2
+		}
+	}
+	if got != content {
+		return 3
+	}
+	for i, h := range hs {
+		if h.Size() != int64(len(content)) {
+			return 6
+		}
+		if !bytes.Equal(h.Sum(nil), refDigest(names[i], content)) {
+			return 7
+		}
+	}
+	return 0
+}
+
 // VerifC12Readers: the same through the hashing reader, read with buffers of the chunk sizes.
 func VerifC12Readers(content string, c1, c2 int, k0, k1, k2 int, single bool) int {
 	names := []string{}
@@ -168,5 +251,6 @@ func VerifC12Unknown(name string) int {
 var verifFuncs = map[string]interface{}{
 	"VerifC12Writers": VerifC12Writers,
 	"VerifC12Readers": VerifC12Readers,
+	"VerifC12Source":  VerifC12Source,
 	"VerifC12Unknown": VerifC12Unknown,
 }
